@@ -13,6 +13,10 @@
 (C) random lists of mixed sky regions: serialize -> parse -> serialize -> parse in the region's
     own frame and in another coordsys (positions compared on the sky), fmt .3f .. .9f, radunit
     deg/arcmin/arcsec; numbers validated by Trace_Ds9Write.tla's half-unit clause.
+(D) per-line trace validation: the guarded hook `crtf.read.line` logs the parser's persistent state
+    (global_meta, number of shapes) after every physical line of the files of (B);
+    Trace_CrtfSteps.tla steps Crtf!StepLine along the file and requires the projected model state
+    to equal the logged one after every line (self-test: corrupted logs must be rejected).
 """
 import json
 import math
@@ -37,11 +41,102 @@ CLS = ds9text.CLS
 SIZES = ds9text.SIZES
 
 
+STEPLOG = []          # per-line parser states recorded by the hook during the last parse_real call
+STEP_EVENTS = []      # (abstract physical lines, logged states, text) collected for Trace_CrtfSteps
+
+
+def hooks():
+    try:
+        from regions._utils import verif
+    except ImportError:
+        if os.environ.get('VERIF_ALLOW_NO_HOOKS') == '1':
+            return None
+        raise tlc.TlcError('regions/_utils/verif.py (guarded tracing hooks) is missing from the tree under test')
+    if not verif.enabled():
+        raise tlc.TlcError('tracing hooks are not enabled (ASTROPY_REGIONS_VERIF=1 expected)')
+    return verif
+
+
 def parse_real(text):
     from regions import Regions
+    hk = hooks()
+    if hk:
+        hk.events.clear()
+    del STEPLOG[:]
     with warnings.catch_warnings():
         warnings.simplefilter('ignore')
-        return list(Regions.parse(text, format='crtf'))
+        try:
+            return list(Regions.parse(text, format='crtf'))
+        finally:
+            if hk:
+                STEPLOG.extend(f for nm, f in hk.events if nm == 'crtf.read.line')
+                hk.events.clear()
+
+
+def record_steps(lines, text):
+    """physical lines = the #CRTF header (a comment), the lines, the empty tail."""
+    if hooks() is None:
+        return
+    log = [{'gmeta': dict({str(k): str(v) for k, v in f['global_meta'].items()}, zz='zz'), 'n': f['n_shapes']} for f in STEPLOG]
+    STEP_EVENTS.append(([{'k': 'comment'}] + list(lines) + [{'k': 'comment'}], log, text))
+
+
+def step_validation(ctx, cap):
+    """(D) Trace_CrtfSteps over the per-line logs of the reader replays."""
+    import copy
+    evs = STEP_EVENTS
+    if not evs:
+        if hooks() is None:
+            ctx.note('step_validation', 'skipped: tree without hooks (VERIF_ALLOW_NO_HOOKS=1)')
+            return
+        raise tlc.TlcError('no per-line parser states were recorded')
+    evs = evs[::max(1, len(evs) // cap)]
+    wd = tlc.workdir('c11steps')
+    path = os.path.join(wd, 'events.json')
+    with open(path, 'w') as f:
+        json.dump([{'file': e[0], 'log': e[1]} for e in evs], f)
+    res = tlc.run('Trace_CrtfSteps', cfg='Trace_CrtfSteps.cfg', dump=True, env={'TRACE_FILE': path}, tag='c11steps', timeout=2400)
+    ctx.tlc(res, 'Trace_CrtfSteps: per-line validation of the parser state logged by the hook')
+    done = set()
+    for st in res.states():
+        e = evs[st['t'] - 1]
+        if st['verdict'] != 'ok':
+            done.add(st['t'])
+            k = st['i'] - 1 if st['i'] > 1 else 0
+            line = e[0][k - 1] if k else None
+            sig = (line or {}).get('kind', (line or {}).get('k', '-'))
+            ctx.violation(f"C11|steps|{st['verdict']}|{sig}", f"after physical line {k} ({sig}) the parser's {st['verdict']} is not the state Crtf!StepLine defines: "
+                          f"model gmeta {st['s']['gmeta'] if k else '-'}, {len(st['s']['out']) if k else '-'} shapes; logged {e[1][k - 1] if k and k <= len(e[1]) else len(e[1])}",
+                          {'text': e[2], 'line_index': k, 'logged': e[1]})
+        elif st['i'] > len(e[0]):
+            done.add(st['t'])
+    if len(done) != len(evs):
+        raise tlc.TlcError(f'Trace_CrtfSteps: {len(evs) - len(done)} traces did not reach a verdict')
+    tlc.cleanup(res.workdir)
+    # binding self-test: corrupted logs must be rejected
+    bad = []
+    for j, e in enumerate(evs[:30]):
+        log = copy.deepcopy(e[1])
+        k = len(log) // 2
+        if j % 3 == 0:
+            log[k]['n'] += 1
+        elif j % 3 == 1:
+            log[k]['gmeta'] = dict(log[k]['gmeta'], color='corrupted')
+        else:
+            del log[k]
+        bad.append({'file': e[0], 'log': log})
+    with open(path, 'w') as f:
+        json.dump(bad, f)
+    neg = tlc.run('Trace_CrtfSteps', cfg='Trace_CrtfSteps.cfg', dump=True, env={'TRACE_FILE': path}, tag='c11stepsneg', timeout=600)
+    rejected = {st['t'] for st in neg.states() if st['verdict'] != 'ok'}
+    if len(rejected) != len(bad):
+        raise tlc.TlcError(f'binding self-test: {len(bad) - len(rejected)} corrupted traces were accepted by Trace_CrtfSteps')
+    ctx.note('step_selftest_corrupted_traces_rejected', len(rejected))
+    tlc.cleanup(neg.workdir)
+    ctx.traces += len(evs)
+    ctx.note('step_traces_validated', len(evs))
+    tlc.cleanup(wd)
+    del STEP_EVENTS[:]
 
 
 def compare(m, r, rel=1e-9):
@@ -195,6 +290,7 @@ def run(ctx):
                 nots = sorted({t['n'] for l in lines if l['k'] == 'region' for t in l['toks']})
                 ctx.violation(f"C11|read|raises|{type(ex).__name__}|{'+'.join(kinds)}|{'+'.join(nots)}", f'parsing raised {ex!r}', case)
                 continue
+            record_steps(lines, text)
             if len(regs) != len(st['out']):
                 ctx.violation('C11|read|count', f'{len(regs)} regions parsed, the format defines {len(st["out"])}', case)
                 continue
@@ -257,6 +353,7 @@ def run(ctx):
         ctx.traces += n
         ctx.note('writer_states_replayed', n)
     tlc.cleanup(res.workdir)
+    step_validation(ctx, 3000 if quick else 30000)
     trace_validation(ctx)
     ctx.assumptions += ['in the image coordinate system the reader takes bare numeric values as pixels whatever their unit suffix, and the writer emits pixel positions with a '
                         '"deg" suffix: modelled as the code does (round trip holds), noted as a deviation from CASA in DESIGN.md',
